@@ -109,6 +109,8 @@ fn call(oracle: &str, v: &Value) -> Value {
         #[cfg(feature = "lsp")]
         "incan::emit_promotion" => c05::emit_promotion(v),
         #[cfg(feature = "lsp")]
+        "incan::multifile_index" | "incan::multifile_promotion" => c05::multifile_module(v),
+        #[cfg(feature = "lsp")]
         "lsp::diagnostic_range" => c05::diagnostic_range(v),
         #[cfg(feature = "lsp")]
         "lsp::server_ranges" => server::server_ranges(v),
@@ -671,6 +673,55 @@ mod c05 {
     /// C07 bounded stand-in for the lowering (expression typing of operands, compound-assignment desugaring) and
     /// emit_binop_expr on `+ - *` and `**`: in the generated Rust exactly the int operands of a float operation are
     /// promoted (`(e) as f64`), whatever the syntactic form of the operand (variable, field, len(), index).
+    /// C05 / C07 bounded stand-in for IMPORTED modules (multi-file programs): the module is compiled through the real
+    /// multi-file code generator (both the flat and the nested API) next to a main module that imports it; inside the module
+    /// an index / slice read of a field must use the runtime helper for the field's type, and an int field operand of a float
+    /// operation must be promoted — exactly as in a single-file program.
+    pub fn multifile_module(v: &Value) -> Value {
+        let kind = v["kind"].as_u64().unwrap_or(0) % 7;
+        let nested = v["nested"].as_bool().unwrap_or(false);
+        let (body, ret, musts): (&str, &str, Vec<&str>) = match kind {
+            0 => ("b.xs[i]", "int", vec!["incan_stdlib::collections::list_get(&b.xs,"]),
+            1 => ("b.name[i]", "str", vec!["incan_stdlib::strings::str_index(&b.name,"]),
+            2 => ("b.xs[i:]", "List[int]", vec!["incan_stdlib::collections::list_slice(&b.xs,"]),
+            3 => ("b.name[:i]", "str", vec!["incan_stdlib::strings::str_slice(&b.name,"]),
+            4 => ("b.n * 2.5", "float", vec!["(b.n)asf64*2.5"]),
+            5 => ("b.total + b.n", "float", vec!["b.total+(b.n)asf64"]),
+            _ => ("b.n / i", "float", vec!["incan_stdlib::num::py_div("]),
+        };
+        let helper = format!("pub model Bag:\n    xs: List[int]\n    name: str\n    total: float\n    n: int\n\npub def get(b: Bag, i: int) -> {}:\n    return {}\n", ret, body);
+        let main = "from helper import Bag, get\n\ndef main() -> None:\n    pass\n".to_string();
+        let (h2, m2) = (helper.clone(), main.clone());
+        let got = guarded(move || {
+            let parse = |src: &str| -> Result<incan::frontend::ast::Program, String> {
+                let tokens = incan::frontend::lexer::lex(src).map_err(|e| format!("lex: {:?}", e.first().map(|x| x.message.clone())))?;
+                incan::frontend::parser::parse(&tokens).map_err(|e| format!("parse: {:?}", e.first().map(|x| x.message.clone())))
+            };
+            let (hast, mast) = (parse(&h2)?, parse(&m2)?);
+            let mut cg = incan::IrCodegen::new();
+            cg.add_module("helper", &hast);
+            if nested {
+                let (_main, mods) = cg.try_generate_multi_file_nested(&mast, &[vec!["helper".to_string()]]).map_err(|e| format!("codegen: {}", e))?;
+                mods.get(&vec!["helper".to_string()]).cloned().ok_or("no code for module helper".to_string())
+            } else {
+                let (_main, mods) = cg.try_generate_multi_file(&mast, &["helper"]).map_err(|e| format!("codegen: {}", e))?;
+                mods.get("helper").cloned().ok_or("no code for module helper".to_string())
+            }
+        });
+        let echo = { let mut a = v.clone(); a["helper_module"] = json!(helper); a["main_module"] = json!(main); a };
+        match &got {
+            Ok(Ok(code)) => {
+                let flat: String = code.chars().filter(|c| !c.is_whitespace()).collect::<String>().replace(",)", ")").replace("2.5f64", "2.5");
+                let line = flat.find("fnget(").map(|i| { let r = &flat[i..]; r[..r.find("}").unwrap_or(r.len())].to_string() }).unwrap_or_default();
+                let missing: Vec<&str> = musts.iter().filter(|m| !line.contains(**m)).cloned().collect();
+                verdict(missing.is_empty(), json!({"generated_function": line, "missing": missing}), json!(musts), &echo,
+                        "inside an imported module the generated code is the same as in a single-file program (typed lowering)")
+            }
+            Ok(Err(m)) => verdict(false, json!({"front_end_error": m}), json!(musts), &echo, "the two-module program must compile"),
+            Err(m) => verdict(false, json!({"panicked": m}), json!(musts), &echo, "front end must not panic"),
+        }
+    }
+
     pub fn emit_promotion(v: &Value) -> Value {
         let ops = ["+", "-", "*", "**"];
         let op = ops[v["op"].as_u64().unwrap() as usize % 4];
@@ -860,10 +911,13 @@ mod c05 {
                 let echo = { let mut a = v.clone(); a["source"] = json!(src); a };
                 return match &got {
                     Ok(Ok(code)) => {
-                        // compare modulo whitespace and parentheses around operands (spelling of the i64 conversion is `(x) as i64`)
-                        let flat: String = code.chars().filter(|c| !c.is_whitespace()).collect::<String>().replace("(r)as", "ras").replace("(c)as", "cas").replace("(st)as", "stas")
-                            .replace("(1)as", "1as").replace("(2)as", "2as").replace("(3)as", "3as").replace("i64::from(r)", "rasi64").replace("i64::from(c)", "casi64").replace("i64::from(st)", "stasi64")
-                            .replace(",)", ")");   // trailing commas of the pretty-printer
+                        // compare modulo whitespace, trailing commas of the pretty-printer, and the spelling of the i64 conversion of a
+                        // simple operand: `(x) as i64`, `x as i64`, `i64::from(x)` all become `xasi64`
+                        let mut flat: String = code.chars().filter(|c| !c.is_whitespace()).collect::<String>().replace(",)", ")");
+                        for x in ["r", "c", "st", "1", "2", "3"] {
+                            flat = flat.replace(&format!("i64::from({})", x), &format!("{}asi64", x)).replace(&format!("({})asi64", x), &format!("{}asi64", x))
+                                       .replace(&format!("({}).into()", x), &format!("{}asi64", x));
+                        }
                         let missing: Vec<&str> = musts.iter().filter(|m| !flat.contains(**m)).cloned().collect();
                         verdict(missing.is_empty(), json!({"missing_in_generated_code": missing}), json!(musts), &echo,
                                 "the index / slice form goes through the runtime helper with the written operands also in this statement context")
@@ -1315,6 +1369,8 @@ fn search(oracle: &str, seed: u64, budget: u64, skip: &[String]) -> Value {
                 json!({"s": d, "start": st, "end": st})
             }
             "lsp::span_to_range" | "syntax::get_line_info" => { let a = roff(&mut r, &s); let b = roff(&mut r, &s); json!({"s": s, "start": a, "end": b}) }
+            "incan::multifile_index" => { let k = n % 8; json!({"kind": k % 4, "nested": k / 4 == 1}) }
+            "incan::multifile_promotion" => { let k = n % 6; json!({"kind": 4 + k % 3, "nested": k / 3 == 1}) }
             "incan::static_type_sources" => { let k = n % 112; json!({"op": k % 7, "ann_float": (k / 7) % 2 == 1, "src": k / 14}) }
             "incan::static_type_nested" => {
                 // pseudo-random trees of depth <= 3 (seeded): bounded sample, not exhaustive
